@@ -66,10 +66,11 @@ ClassSlots(c) ==
     [] c.cls = "zeroslot0" -> (0 :> 0 @@ 1 :> c.k)
     [] c.cls = "custom"   -> (0 :> c.k @@ 1 :> c.k @@ 2 :> c.k)
     [] c.cls = "single"   -> (0 :> c.k)
+    [] c.cls = "uneven"   -> (0 :> c.k + 1 @@ 1 :> c.k)
 Classes(c) == DOMAIN ClassSlots(c)
 DefaultClass(c) ==
   CASE c.cls = "simple" -> 1 [] c.cls = "movable" -> 2 [] c.cls = "zeroed" -> 1
-    [] c.cls = "zeroslot" -> 1 [] c.cls = "zeroslot0" -> 1 [] c.cls = "custom" -> 1 [] c.cls = "single" -> 0
+    [] c.cls = "zeroslot" -> 1 [] c.cls = "zeroslot0" -> 1 [] c.cls = "custom" -> 1 [] c.cls = "single" -> 0 [] c.cls = "uneven" -> 1
 
 \* kind of the policy's answer; none of the policies' kinds depends on `free`
 PolicyKind(c, req, tgt) ==
